@@ -48,19 +48,22 @@ def start_proofs(ctx, prop_file, theorems, gen):
     property file, in a thread (the harness runs meanwhile)."""
     props = os.path.join(ctx.scratch, "props")
     os.makedirs(props, exist_ok=True)
-    inst_src = os.path.join(COQ, "properties", "LoaderInst.v")
-    inst = os.path.join(props, "LoaderInst.v")
-    shutil.copy(inst_src, inst)
+    # C09 also needs the instance for Supported / SetNoNewPrivs; C10 and C11 quantify over any probe function
+    names = ["LoaderInst.v"] + (["SupportedInst.v"] if prop_file == "C09.v" else [])
+    srcs = [os.path.join(COQ, "properties", n) for n in names]
+    insts = [os.path.join(props, n) for n in names]
+    for a, b in zip(srcs, insts):
+        shutil.copy(a, b)
     state = {}
 
     def work():
         try:
-            bad = ctx.grep_forbidden([inst_src])
+            bad = ctx.grep_forbidden(srcs)
             if bad:
                 ctx.broken = "forbidden constructs: " + "; ".join(bad)
                 ctx.obligations += [t for t in theorems if t not in ctx.obligations]
                 return
-            res, log = ctx.check_properties_file(prop_file, theorems, gen=gen, extra_files=[inst])
+            res, log = ctx.check_properties_file(prop_file, theorems, gen=gen, extra_files=insts)
             failed = [(t, d) for t, (okk, d) in res.items() if not okk]
             if failed:
                 ctx.broken = "; ".join("%s: %s" % (t, d) for t, d in failed) + "\n" + log[-1800:]
@@ -338,15 +341,20 @@ def direct_C09(h):
         idx, who, flags, pol = int(op[1]), op[2], int(op[4]), op[5]
         nil = stp["R"][0] == "nil"
         ct = caller_tid(h, who, stp)
-        grew = [t for t in T1 if t in T0 and T1[t][1] > T0[t][1]]
+        B = stp["B"]
+        # a task that did not exist at the previous step (started by the Go runtime in between) is compared with
+        # what it looked like right before the call, if that was observed; otherwise it counts as "may have grown"
+        grew = [t for t in T1 if (t in T0 and T1[t][1] > T0[t][1]) or
+                (t not in T0 and T1[t][1] > (B[t][1] if t in B else 0))]
         if nil:
             if ct is None or ct not in T1:
                 bad.append(dict(step=i, what="LoadFilter returned nil without any seccomp(2) call", expected="a filter in force", actual="no call observed"))
             else:
-                before = T0.get(ct, (0, 0, 0))[1]
-                if T1[ct][0] != 2 or T1[ct][1] != before + 1:
+                before = T0[ct][1] if ct in T0 else (B[ct][1] if ct in B else None)
+                if T1[ct][0] != 2 or (T1[ct][1] != before + 1 if before is not None else T1[ct][1] < 1):
                     bad.append(dict(step=i, what="LoadFilter returned nil but no filter was added to the calling thread %d" % ct,
-                                    expected="Seccomp: 2, Seccomp_filters: %d" % (before + 1), actual="Seccomp: %d, Seccomp_filters: %d" % (T1[ct][0], T1[ct][1])))
+                                    expected="Seccomp: 2, Seccomp_filters: %s" % (before + 1 if before is not None else ">= 1"),
+                                    actual="Seccomp: %d, Seccomp_filters: %d" % (T1[ct][0], T1[ct][1])))
                 if ct in P1 and idx not in P1[ct]:
                     bad.append(dict(step=i, what="LoadFilter returned nil but the new filter does not answer the probe on the calling thread %d" % ct,
                                     expected="filter %d active" % idx, actual=P1[ct]))
@@ -705,6 +713,9 @@ def run_check(ctx, prop, prop_file, theorems, hist_texts, replay, rule, jobs=8):
                                                       tasks={str(t): list(v) for t, v in list(s["T"].items())[:6]},
                                                       active={str(t): v for t, v in list(s["P"].items())[:6]})
                                                  for k, s in sorted(h["steps"].items()) if k >= 0][:6]))
+    ctx.coverage["checker_cmd"] = ("coqc 8.16.1 (full .vo) on coq/theories + regenerated gen/ (GenSkeletons.v, GenConsts.v) + coq/properties/LoaderInst.v "
+                                   "(per-run proof by symbolic execution that the regenerated LoadFilter skeleton satisfies load_spec) + coq/properties/%s.v; "
+                                   "Print Assumptions per theorem" % prop)
     ctx.coverage.update(dict(
         evaluations=nops, histories=len(obs), distinct_nontrivial=len(distinct), rule=rule,
         traces_validated_against_impl=nsteps, correspondence_differences=ndiff, counterexamples=nbad,
